@@ -70,7 +70,7 @@ def run(tier, seed):
     t0 = time.time()
     pid = 'C19'
     cfgs = pool(tier, seed)
-    cases = 40 if tier == 'quick' else 500
+    cases = 40 if tier == 'quick' else 200
     threads = 8 if tier == 'quick' else 16
     b, res = build(cfgs)
     core.prune_build_cache()
